@@ -178,3 +178,35 @@ def roles_check(prop):
 
 assume_doc("ROLES", "BOUNDED, not proved: role table histories of at most 3 operations + 2 reads over two public keys, SQL backend only (the LMDB backend "
            "stores roles as service events, i.e. through add_event and the query path)")
+
+
+def atomic_check(prop):
+    """extra check for C07: an engine error injected at every statement of a multi-statement event leaves every table as it was"""
+
+    def check(tier, seed):
+        t0 = time.time()
+        outdir = os.path.join(os.environ.get("PYVC_OUT_DIR", ROOT), "replays")
+        os.makedirs(outdir, exist_ok=True)
+        out = os.path.join(outdir, "%s_atomic.json" % prop)
+        env = dict(os.environ)
+        env["PYTHONPATH"] = ROOT
+        p = subprocess.run([sys.executable, os.path.join(ROOT, "bounded", "atomic_enum.py"), "--json", out], capture_output=True, text=True, env=env, timeout=600)
+        if p.returncode != 0 or not os.path.exists(out):
+            raise RuntimeError("atomic_enum failed: %s" % (p.stdout + p.stderr)[-1500:])
+        r = json.load(open(out))
+        res = {"name": "engine-error-injection", "kind": "bounded stand-in (real DBStorage on sqlite, an engine error injected at every statement of the last event)",
+               "status": "ok", "evaluations": r["cases"], "distinct": r["cases"], "known_lines": [], "exhaustive": True,
+               "rule": "three histories (replace a replaceable event; kind-5 deletion of two own events; kind-0 superseding an older one); one case per "
+                       "statement index of the last event, plus the fault-free run",
+               "samples": r.get("samples", [])[:3], "seconds": round(time.time() - t0, 1)}
+        if r["failure_classes"]:
+            res["status"] = "violation"
+            res["failures"] = [{"kind": c["kind"], "count": c["count"], "example": c["example"]} for c in r["failure_classes"]]
+        return res
+
+    check.__name__ = "atomic_%s" % prop
+    return check
+
+
+assume_doc("ATOMIC", "BOUNDED, not proved: that an exception leaving `async with self.db.begin()` restores the store is exercised for three histories x every "
+           "statement index of the last event on SQLite as the relay configures it (in-process error injection; process kills and power loss are not exercised)")
